@@ -33,6 +33,9 @@ ASSUMPTIONS = [
 from .common_node import clock_sources
 
 
+from .common_node import wake_fail
+
+
 def run(ctx: Ctx):
     model = ctx.model
     nc = model.cls("node.node", "Node")
@@ -106,8 +109,11 @@ def run(ctx: Ctx):
     closes_u = []
     for n in g.nodes:
         for c in n.calls():
-            if A.call_name(c) == "self.close_connection_socket" and c.args:
-                cv_ = A.dotted(c.args[0])
+            is_close = A.call_name(c) == "self.close_connection_socket" and c.args
+            is_conn_close = isinstance(c.func, ast.Attribute) and c.func.attr == "close" and not c.args \
+                and isinstance(c.func.value, ast.Name)
+            if is_close or is_conn_close:
+                cv_ = A.dotted(c.args[0]) if is_close else c.func.value.id
                 fx = must_facts(g, at, n)
                 if any(f_[0] == f"{cv_}.state" and f_[3] is True and (
                         (f_[1] == "in" and {CONNECTING_, CONNECTED_} <= set(f_[2] if isinstance(f_[2], (set, frozenset, tuple, list)) else ()))
@@ -120,6 +126,21 @@ def run(ctx: Ctx):
                  "still connecting or waiting for their CER/CEA alone: they complete the exchange "
                  "while the node is stopping, are served, never get a DPR, and stop() waits its whole "
                  "timeout for them (their handshake timers are off while stopping)")
+    # ... by the node's own thread: while the I/O thread runs it may be using the socket
+    # (getsockopt on a connecting socket, recv, send), so stop() - on the caller's thread - asks
+    # for the close (PeerConnection.close) and does not close sockets itself before the I/O
+    # thread has been joined
+    cons_t = "stop:sockets-closed-by-the-io-thread"
+    ctx.inst(cons_t)
+    joins = [n for n in g.nodes if any(A.call_name(c) == "self._connection_thread.join" for c in n.calls())]
+    for n in g.nodes:
+        if any(A.call_name(c) == "self.close_connection_socket" for c in n.calls()) \
+                and joins and not g.dominated(n, joins):
+            ctx.fail(cons_t, g.loc(n), "stop() closes a connection's socket on the caller's thread while the "
+                     "I/O thread is still running: the I/O thread's next call on that socket "
+                     "(getsockopt(SO_ERROR) of a connecting socket is not guarded) raises OSError(EBADF) "
+                     "and ends the thread - the ready peers get no DPR and stop() waits its whole timeout")
+            break
     # bounded wait
     cons = "stop:bounded-wait"
     ctx.inst(cons)
@@ -421,12 +442,12 @@ def run(ctx: Ctx):
         sigs = [x for x in gw.nodes if any(A.call_name(c) == "self.demand_attention" for c in x.calls())]
         heads = [x for x in gw.nodes if x.kind == "loop"]
         if not sigs:
-            ctx.fail(cons, ww.loc(), "the writer never wakes the node after appending a message")
+            wake_fail(ctx, cons, ww.loc(), "the writer never wakes the node after appending a message")
         for sg in sigs:
             after = gw.reach([d for l, d in sg.succ if l not in ("exc", "raise")], blocked=heads)
             late = [d for d in dones if d in after]
             if late:
-                ctx.fail(cons, gw.loc(sg), "the writer wakes the node (demand_attention) before "
+                wake_fail(ctx, cons, gw.loc(sg), "the writer wakes the node (demand_attention) before "
                          "task_done(): the node thread can flush the buffer while has_queued_messages "
                          "is still true, leave a PEER_CLOSING connection open, and is never woken "
                          "again - the rejected (3010) connection stays registered and stop() waits its "
@@ -459,7 +480,7 @@ def run(ctx: Ctx):
         for dn_ in dones:
             after = gw.reach([d for l, d in dn_.succ if l not in ("exc", "raise")], normal_blocked=sigs)
             if any(h in after for h in heads) or gw.exit in after:
-                ctx.fail(cons, gw.loc(dn_), "after this task_done() the writer can go for the next message "
+                wake_fail(ctx, cons, gw.loc(dn_), "after this task_done() the writer can go for the next message "
                          "(or end) without demand_attention(): if the message was the last one of a "
                          "PEER_CLOSING connection (e.g. it could not be encoded) the node is never "
                          "woken, no timer covers CLOSING, and the connection with its socket and two "
